@@ -348,6 +348,10 @@ func (u *Unit) applyFn(env *Env, fn Term, sig *types.Signature, args []Value, at
 	if u.effectfulCallbacks() {
 		return u.applyEffectful(env, fn, sig, args, at)
 	}
+	if li := u.knownLits[fn.S]; li != nil && li.blk == nil && sig.Results().Len() == 0 {
+		// a result-less literal created in this activation (e.g. handed to a helper that runs it under a lock): inline it
+		return u.applyKnownLit(env, li, fn, sig, args, at)
+	}
 	u.assumeUsed("user callbacks are deterministic functions of their arguments and do not touch the library's heap")
 	var vals []Value
 	for i := 0; i < sig.Results().Len(); i++ {
@@ -391,12 +395,20 @@ func (u *Unit) closure(lit *ast.FuncLit, env *Env) Value {
 	// a contract block for this literal takes precedence
 	owner := u.curFn[len(u.curFn)-1]
 	ord, hasOrd := u.lits[lit]
+	li := &litInfo{lit: lit, owner: owner, ord: ord, info: u.Info}
+	u.knownLits[clo.S] = li
 	if hasOrd {
 		if blk := u.Prog.Contracts.Get(owner.Key, fmt.Sprintf("lit %d", ord)); blk != nil {
 			blk.Bound = true
-			u.closureByContract(lit, sig, clo, blk, env, ord)
+			li.blk = blk
+			if blk.Opts["effects"] == "" && sig.Results().Len() > 0 && !u.effectfulCallbacks() {
+				u.pureLitAxiom(lit, sig, clo, blk, env)
+			}
 			return Value{clo, ty}
 		}
+	}
+	if u.effectfulCallbacks() {
+		return Value{clo, ty} // applied later: inlined (shares the captured variables) or by contract
 	}
 	if sig.Results().Len() == 0 {
 		u.note(fmt.Sprintf("closure lit %d of %s has no result and no contract: opaque", ord, owner.Key))
@@ -800,6 +812,9 @@ func (u *Unit) callByContract(c *ast.CallExpr, fi *FuncInfo, blk *Block, recv *V
 	// effects
 	if !blk.Pure {
 		mods := u.evalModifies(blk, env, sc)
+		if blk.Opts["effects"] == "trace" {
+			u.havocTrace(env)
+		}
 		if !mods.all && len(mods.refs) == 0 {
 			// the callee writes nothing that exists: it can only allocate. Its postcondition then constrains the current
 			// heaps at references allocated during the call (unconstrained so far); no heap needs to be replaced.
@@ -1116,3 +1131,37 @@ func (u *Unit) callIfaceByContract(c *ast.CallExpr, key string, blk *Block, m *t
 }
 
 var _ = token.NoPos
+
+// a pure literal with a contract: forall params. requires => ensures[r0 := apply(clo, params)]
+func (u *Unit) pureLitAxiom(lit *ast.FuncLit, sig *types.Signature, clo Term, blk *Block, env *Env) {
+	sc := *u.ownCtx
+	sc.bound = map[string]Value{}
+	var bvs []Term
+	for i := 0; i < sig.Params().Len(); i++ {
+		p := sig.Params().At(i)
+		bv := u.D.Bound(p.Name(), u.sortOf(p.Type()))
+		sc.bound[p.Name()] = Value{bv, p.Type()}
+		bvs = append(bvs, bv)
+	}
+	var lhs []Term
+	for i := 0; i < sig.Results().Len(); i++ {
+		name, rs, _ := u.applyName(sig, i)
+		app := App(name, rs, append([]Term{clo}, bvs...)...)
+		sc.bound[fmt.Sprintf("r%d", i)] = Value{app, sig.Results().At(i).Type()}
+		lhs = append(lhs, app)
+	}
+	sc.old = env.clone()
+	var pre, post []Term
+	for _, cl := range blk.Of("requires") {
+		pre = append(pre, u.specExprCtx(cl, env, &sc))
+	}
+	for _, cl := range blk.Of("ensures") {
+		post = append(post, u.specExprCtx(cl, env, &sc))
+	}
+	body := Imp(And(pre...), And(post...))
+	if len(bvs) == 0 {
+		env.assume(body)
+		return
+	}
+	env.assume(Forall(bvs, body, lhs))
+}
